@@ -23,7 +23,7 @@ def _configs():
 
 FORK_OPS = ('copy', 'copycopy', 'to_imm', 'to_mut', 'immfeed', 'immexhaust')
 OPS = [('feed', 30), ('badfeed', 4), ('step', 14), ('iter', 5), ('exhaust', 3), ('resume', 3), ('copy', 9), ('copycopy', 3),
-       ('to_imm', 4), ('to_mut', 2), ('immfeed', 5), ('immexhaust', 2), ('eofcopy', 4), ('accepts_exact', 6), ('drop', 2)]
+       ('to_imm', 4), ('to_mut', 2), ('immfeed', 5), ('immexhaust', 2), ('immeof', 2), ('eofcopy', 4), ('accepts_exact', 6), ('drop', 2)]
 
 
 class Sess:
@@ -180,6 +180,9 @@ class C13(Check):
             if kind == 'immexhaust':
                 new = ip.exhaust_lexer()
                 return ('immexhausted',), new
+            if kind == 'immeof':
+                new = ip.feed_eof()                 # on an immutable session: a NEW session that carries the result
+                return ('immeof', canon(getattr(new, 'result', None), True)), None
             if kind == 'root':
                 return ('root',), None
         except UnexpectedInput as ex:
@@ -361,6 +364,18 @@ class C13(Check):
                     sessions.append(ns)
                     moved = ns
                 out.count('op:immexhaust')
+            elif opname == 'immeof':
+                if not s.imm:
+                    continue
+                op = ('immeof',)
+                res, _ = self._apply(ip, op)
+                # the immutable session itself must be unchanged: its event list does not grow, only the outcome is compared
+                lin, diff = linear(s.events + [(op, res)])
+                out.count('op:immeof')
+                if diff is not None:
+                    fail('fork-diverges-from-linear(moved,outcome)', step=stepno, op=opname, session=sessions.index(s), event=diff[1], got=diff[3], want_linear=diff[2],
+                         events=[o[0] for o, _ in s.events])
+                    break
             elif opname == 'eofcopy':
                 # feed_eof on a throw-away copy: must not disturb anybody (checked by the snapshots below)
                 try:
